@@ -128,6 +128,9 @@ class System:
                     i.param.update(**{a["n"]: v})
             elif n == "instmeta":
                 self.insts[a["i"] - 1].param[a["n"]].precedence = a["b"]
+            elif n == "instupdctx":
+                with self.insts[a["i"] - 1].param.update(**{a["n"]: self.val(a["v"])}):
+                    pass
             elif n == "insttrigger":
                 self.insts[a["i"] - 1].param.trigger(a["n"])
             elif n == "instconst":
@@ -215,7 +218,7 @@ class System:
         elif name == "readns":
             ns_classes.add(act["c"])
             ns_insts.update(k for k, i in enumerate(self.insts) if type(i).__name__ == act["c"])
-        elif name in ("instparam", "instmeta", "instset", "mutateinst", "enteredit", "exitedit", "instobjs", "instconst", "insttrigger"):
+        elif name in ("instparam", "instmeta", "instset", "mutateinst", "enteredit", "exitedit", "instobjs", "instconst", "insttrigger", "instupdctx"):
             ns_insts.add(act["i"] - 1)
         elif name in ("addparam", "classobjs", "classmeta"):
             ns_classes.add(act["c"])
